@@ -225,7 +225,7 @@ func init() {
 	mixed := profiles["mixed"]
 
 	queries := *mixed
-	queries.name, queries.queryPct = "queries", 30
+	queries.name, queries.queryPct = "queries", 20 // with the twins that follow, about 30% of the ops
 	profiles["queries"] = &queries
 
 	genesis := *mixed
